@@ -518,6 +518,13 @@ func (x *fx) loopHead(li *loopInfo, b *ssa.BasicBlock, st *State, reach Term, pr
 			}
 		}
 	}
+	if loopLocks(li.blocks) {
+		for _, gk := range sortedKeys(head.ghost) {
+			if strings.HasPrefix(gk, "lk:") {
+				head.ghost[gk] = e.declare("ghost:"+gk, "Int")
+			}
+		}
+	}
 	li.phiConst = map[*ssa.Phi]Term{}
 	for _, in := range b.Instrs {
 		ph, ok := in.(*ssa.Phi)
